@@ -52,10 +52,10 @@ def _const_square_index(e):
     return None
 
 
-def _primitive(name):
+def _primitive(name, T=None):
     """Functions whose meaning the oracle speaks about directly (not executed symbolically)."""
     from wa.expr import PURE
-    return name in PURE or name in (IS_CHECK, ICC)
+    return name in PURE or name in (IS_CHECK, ICC) or (T is not None and name == T.name)
 
 
 def r1_2(ctx):
@@ -67,8 +67,11 @@ def r1_2(ctx):
     from wa.itermodel import xbody
     from wa.symex import SymEx, erase
     from wa.pathsym import cond_truth
+    from .attack import attack_test
     f = ctx.facts
-    b = xbody(f, CAN)
+    T = attack_test(f)     # the square-attack test (by name or by role) and what its colour parameter means
+    xb = lambda n: xbody(f, n, keep={T.name})
+    b = xb(CAN)
     ctx.note_fn(CAN)
     bp = [i for i in range(1, b.arg_count + 1) if b.local_ty(i) == "&board::BoardState"]
     tp = [i for i in range(1, b.arg_count + 1) if "CastlingType" in b.local_ty(i)]
@@ -82,7 +85,7 @@ def r1_2(ctx):
         tv = ("agg", "move_generation::CastlingType", right, ())
         if b.local_ty(tp).startswith("&"):
             tv = ("ref", tv)
-        sx = SymEx(f, inline=lambda n: f.has_body(n) and not _primitive(n), body_of=lambda n: xbody(f, n))
+        sx = SymEx(f, inline=lambda n: f.has_body(n) and not _primitive(n, T), body_of=xb)
         paths = [p for p in sx.run(b, 0, {tp: tv}) if p.end == "return"]
         for fid, fe in sx.frames.items():
             ctx.note_fn(fe.b.name)
@@ -125,13 +128,13 @@ def r1_2(ctx):
                         checks.add(c_[2])
                     else:
                         unknown.append("is_check(%s)=%s" % (show_expr(c_, b), truth))
-                elif d0[0] == "call" and d0[1] == ICC:
-                    c_ = d0[2][1]
-                    pt = _const_point(d0[2][2])
-                    if truth is False and pt and c_[0] == "agg" and c_[2] == colour and d0[2][0] == ("arg", bp):
+                elif d0[0] == "call" and d0[1] == T.name and len(d0[2]) == 3:
+                    c_ = d0[2][T.color - 1]
+                    pt = _const_point(d0[2][T.sq - 1])
+                    if truth is False and pt and c_[0] == "agg" and c_[2] == T.colour_arg_for(colour) and d0[2][T.board - 1] == ("arg", bp):
                         attacked.add(pt)
                     else:
-                        unknown.append("is_check_cords(%s, %s)=%s" % (show_expr(c_, b), show_expr(d0[2][2], b)[:30], truth))
+                        unknown.append("%s(%s, %s)=%s" % (T.name.split("::")[-1], show_expr(c_, b), show_expr(d0[2][T.sq - 1], b)[:30], truth))
                 else:
                     unknown.append("%s=%s" % (show_expr(d0, b)[:50], truth if truth is not None else c[1]))
             summaries.add((frozenset(flags), frozenset(empties), frozenset(checks), frozenset(attacked), tuple(unknown)))
@@ -150,29 +153,28 @@ def r1_2(ctx):
         ctx.ob("%s:no-other-conditions" % key, not unknown, where, "other conditions on castling: %s" % list(unknown))
 
 
-def r2_6(ctx):
-    """Castling successors, per side to move: generate_castling_moves is executed symbolically under
-    the hypothesis board.to_move == C (helpers that build the successor are part of the body, a
-    `match board.to_move` selecting ranks / castling types / descriptors folds to C's arm).  Every
-    successor created on a path is attributed to the right R whose `can_castle(board, R)` answer
-    `true` is common to all paths that create it, and compared with the oracle's squares for R."""
+def castling_records(f):
+    """Successors created by generate_castling_moves, per side to move: the function is executed
+    symbolically under the hypothesis board.to_move == C (helpers that build the successor are part
+    of the body; a `match board.to_move` selecting ranks / castling types / descriptors folds to
+    C's arm; a loop over a table of castling types is unrolled).  Returns (body, board param, clone
+    blocks, {C: {clone block: [record]}}); a record has the can_castle rights answered `true` so far
+    ('guards'), the calls made on the object and its field writes."""
+    if "_castling_records" in f.__dict__:
+        return f.__dict__["_castling_records"]
     from wa.symex import SymEx, erase
     from wa.pathsym import cond_truth
-    f = ctx.facts
     b = f.body(GCM)
-    ctx.note_fn(GCM)
     bps = [i for i in range(1, b.arg_count + 1) if b.local_ty(i) == "&board::BoardState"]
     if len(bps) != 1:
         raise ShapeNotRecognised("generate_castling_moves(board, ..) parameter not found")
     bp = bps[0]
     clone_sites = sorted(bb for bb, t in b.iter_calls(callee=successor.CLONE))
-    seen = set()
-    nrec = 0
+    out = {}
     for colour in ("White", "Black"):
         to_move = ("field", ("arg", bp), "to_move")
         sx = SymEx(f, assume={to_move: ("agg", "board::PieceColor", colour, ())})
         paths = [p for p in sx.run(b, 0, {}) if p.end == "return"]
-        # successor records: (clone block) -> list over paths of (true can_castle rights so far, events on the object)
         recs = {}
         for p in paths:
             guards = []
@@ -195,17 +197,70 @@ def r2_6(ctx):
                             open_[a0[2]]["calls"].append(ev)
                 elif ev[0] == "write" and ev[3] in open_:
                     open_[ev[3]]["writes"][ev[4][0]] = (ev[1], ev[5])
+        out[colour] = recs
+    f.__dict__["_castling_records"] = (b, bp, clone_sites, out)
+    return f.__dict__["_castling_records"]
+
+
+def king_cache_of_castling(ctx):
+    """R2.5, castling part: every castling successor stores, in the mover's own cached king square
+    and in no other, the oracle's destination for the right it was created under.  Returns the number
+    of obligations."""
+    f = ctx.facts
+    b, bp, clone_sites, per_colour = castling_records(f)
+    n = 0
+    done = set()
+    for colour, recs in sorted(per_colour.items()):
         for cbb, lst in sorted(recs.items()):
-            nrec += 1
-            common = set(lst[0]["guards"])
-            for r in lst[1:]:
-                common &= set(r["guards"])
-            sname = "generate_castling_moves:successor#%d" % clone_sites.index(cbb)
+            for r in lst:
+                right = r["guards"][-1] if r["guards"] else None
+                if right not in chess.CASTLING:
+                    continue      # reported by R2.6 (guard)
+                for field, (loc, v) in sorted(r["writes"].items()):
+                    if not field.endswith("_king_location"):
+                        continue
+                    dest = _const_point(v)
+                    own = field == "%s_king_location" % chess.RIGHT_COLOUR[right].lower()
+                    okd = own and dest == chess.sq(chess.CASTLING[right][1])
+                    if (right, field, bool(okd), dest) in done:
+                        continue
+                    done.add((right, field, bool(okd), dest))
+                    n += 1
+                    ctx.ob("generate_castling_moves(%s):%s:castling-destination" % (right, field), bool(okd), b.where(b.term_loc(cbb)),
+                           "castling %s stores %s in %s; the rules put the king on %s" % (
+                               right, chess.name(dest) if dest and all(2 <= x <= 9 for x in dest) else dest, field, chess.CASTLING[right][1]))
+    return n
+
+
+def r2_6(ctx):
+    """Castling successors, per side to move (see castling_records).  Every successor created on a
+    path is attributed to the right R whose `can_castle(board, R)` answer `true` was the last one
+    before it was created, and compared with the oracle's squares for R."""
+    from wa.symex import erase
+    f = ctx.facts
+    ctx.note_fn(GCM)
+    b, bp, clone_sites, per_colour = castling_records(f)
+    seen = set()
+    nrec = 0
+    for colour in ("White", "Black"):
+        recs = per_colour[colour]
+        # a successor belongs to the right whose can_castle answer `true` was the last one obtained
+        # before it was created (so two blocks, or one block run once per entry of a table of rights,
+        # are the same thing); all records of one right must agree
+        by_right = {}
+        for cbb, lst in sorted(recs.items()):
+            for r in lst:
+                nrec += 1
+                right = r["guards"][-1] if r["guards"] else None
+                if right is None or right == "?" or right not in chess.CASTLING:
+                    ctx.ob("generate_castling_moves:successor#%d:guard" % clone_sites.index(cbb), False, b.where(b.term_loc(cbb)),
+                           "castling successor not created under a can_castle(board, <right>) answer (with %s to move: %s)" % (colour, r["guards"]))
+                    continue
+                by_right.setdefault(right, []).append((cbb, r))
+        for right, items in sorted(by_right.items()):
+            cbb = items[0][0]
+            lst = [r for _, r in items]
             where = b.where(b.term_loc(cbb))
-            if len(common) != 1 or "?" in common:
-                ctx.ob("%s:guard" % sname, False, where, "castling successor not guarded by exactly one can_castle(board, <right>) (with %s to move: %s)" % (colour, sorted(common)))
-                continue
-            right = next(iter(common))
             seen.add(right)
             kf, kt, rf, rt, _, _ = chess.CASTLING[right]
             rcolour = chess.RIGHT_COLOUR[right]
